@@ -19,7 +19,7 @@ ASSUMPTIONS = ["saved-channel subsets are prefixes of the 384 acquired channels 
                "NPultra has no geometry-map reference in the fixtures: shank-map encoding only",
                "mux tables: NP1/NPultra 32 ADCs x 12 channels over 13 slots, NP2 24 ADCs x 16 channels over 16 slots (SpikeGLX muxTbl)"]
 REQUIRED = {"geometries_checked": 40, "joint_permutation_checked": 40, "encodings_compared": 10, "split_checked": 4, "grid_points": 1000,
-            "adc_checked": 40, "cached_tag_variants": 200, "lf_band_geometries": 20}
+            "adc_checked": 40, "cached_tag_variants": 200, "lf_band_geometries": 20, "split_reader_geometries": 8}
 CASE_TIMEOUT = 60.0
 KEYS = [("x", "x"), ("y", "y"), ("shank", "shank"), ("row", "row"), ("col", "col_out"), ("adc", "adc"), ("sample_shift", "sample_shift")]
 
@@ -187,6 +187,11 @@ def run_case(case):
                             check_geometry(res, gc, rec, idx, f"split shank {s} sort={sort}")
                         sr = spikeglx.Reader(f)
                         res.check(sr.nc == ns_ + 1 and len(sr.geometry["x"]) == ns_, "geometry:split-reader", "reader of a split shank: wrong sizes")
+                        for sort in (True, False):      # the reader's own geometry of a split shank is the function's, in the order asked for
+                            srs_ = spikeglx.Reader(f, sort=sort)
+                            gfn = spikeglx.geometry_from_meta(spikeglx.read_meta_data(f), sort=sort)
+                            res.check(all(np.array_equal(srs_.geometry[k], gfn[k]) for k in gfn), "geometry:split-reader:order", f"shank {s}: Reader(sort={sort}).geometry of the split "
+                                      f"file differs from geometry_from_meta(sort={sort})", counter="split_reader_geometries")
                         h = neuropixel.split_trace_header(parent, shank=s)
                         res.check(all(np.array_equal(h[k], parent[k][sel]) for k in parent), "split_trace_header", "split_trace_header is not the restriction")
                         # a parent whose site selection leaves some shanks unused: shank NUMBERS select, not ranks among the shanks present
